@@ -1049,6 +1049,44 @@ func valueFlow(fd *ast.FuncDecl, origins ...string) []string {
 	return out
 }
 
+// loopConds lists, for the first `range` loop of fd, the conditions of every if inside it (source order) and
+// every continue/break/return: what decides whether an element of the loop contributes.
+func loopConds(fd *ast.FuncDecl) []string {
+	if fd == nil {
+		return []string{"<function not found>"}
+	}
+	var out []string
+	var loop *ast.RangeStmt
+	ast.Inspect(fd.Body, func(n ast.Node) bool {
+		if r, ok := n.(*ast.RangeStmt); ok && loop == nil {
+			loop = r
+			return false
+		}
+		return true
+	})
+	if loop == nil {
+		return []string{"<no loop>"}
+	}
+	ast.Inspect(loop.Body, func(n ast.Node) bool {
+		switch x := n.(type) {
+		case *ast.IfStmt:
+			out = append(out, "if:"+src(x.Cond))
+		case *ast.BranchStmt:
+			out = append(out, x.Tok.String())
+		case *ast.ReturnStmt:
+			out = append(out, "return")
+		case *ast.AssignStmt:
+			if len(x.Lhs) == 1 && len(x.Rhs) == 1 {
+				if c, ok := x.Rhs[0].(*ast.CallExpr); ok && src(c.Fun) == "append" {
+					out = append(out, "append:"+src(x.Lhs[0])+"<-"+src(c.Args[len(c.Args)-1]))
+				}
+			}
+		}
+		return true
+	})
+	return out
+}
+
 // ---------- F-doc : the Javadoc accessors of model/javadoc.go ----------
 
 // docAccessors classifies every GetComment* method of *Javadoc: (method, tag name, shape) where shape is
@@ -1241,6 +1279,8 @@ func main() {
 	b.WriteString("]\n")
 	b.WriteString("def bundleProducerBytesFlow : List String := " + leanStrList(valueFlow(findFunc(gens, "processDirectory"), "json.MarshalIndent", "json.Marshal")) + "\n")
 	b.WriteString("def bundleConsumerBytesFlow : List String := " + leanStrList(valueFlow(findFunc(ci, "downloadRuleset"), "io.ReadAll", "ioutil.ReadAll")) + "\n")
+	b.WriteString("def bundleConsumerLoop : List String := " + leanStrList(loopConds(findFunc(ci, "downloadRuleset"))) + "\n")
+	b.WriteString("def bundleProducerLoop : List String := " + leanStrList(loopConds(findFunc(gens, "processDirectory"))) + "\n")
 	b.WriteString("def bundleProducerTop : List String := " + leanStrList(structTags(gens, "CQLFiles")) + "\n")
 	b.WriteString("def bundleProducerFile : List String := " + leanStrList(structTags(gens, "CQLFileContent")) + "\n")
 	b.WriteString("def bundleConsumerTop : List String := " + leanStrList(indexKeys(findFunc(ci, "downloadRuleset"), "response")) + "\n")
